@@ -5,6 +5,9 @@ From XcpModel Require Import Base Meta.
 From XcpProofs Require Import MetaProofs.
 From XcpModel Require Import Extracted.
 From XcpProofs Require Import ExtractedOk.
+From XcpModel Require Import Walker Ops ConcBlock ConcOutcome.
+From XcpProofs Require Import OpsProofs ConcBlockProofs ConcOutcomeProofs.
+From Coq Require Import Permutation.
 
 (* for ALL modes (0..07777 and beyond: masked), times, xattr sets, uid/gid and
    flag combinations, and any previous destination metadata *)
@@ -64,8 +67,28 @@ Theorem C10_src_finalise_order : forall c src,
   flat_map (fun s => if step_enabled c s then actions_of_step (fst s) src else []) x_finalise_order.
 Proof. exact x_finalise_order_ok. Qed.
 
+(* a file's metadata is applied only after its last byte has been written, in EVERY schedule of parblock:
+   the calls on file h are [open .. sizing .. clone .. every block's data] ++ [ownership, xattrs, mode, times, fsync] *)
+Theorem C10_metadata_after_data_in_every_schedule : forall W Q ops s h js fc src dst e0 blk,
+  reachable W Q ops s -> final s = true -> nth_error ops h = Some (OCopy js) ->
+  ce_dst_exists e0 && ce_same_file e0 = false -> ce_cloned e0 = false ->
+  exists bs A F,
+    Permutation bs js /\
+    flat_map (ev_actions fc src dst e0 blk) (events_of h (b_ev s)) = A ++ F /\
+    existsb is_meta A = false /\ existsb data_or_sizing F = false.
+Proof.
+  intros W Q ops s h js fc src dst e0 blk Hr Hf Hn Hsame Hcl.
+  destruct (parblock_any_schedule W Q ops s Hr Hf) as [H _]. specialize (H h _ Hn).
+  destruct (phase_of h (b_ev s)) as [|bs0|bs| |] eqn:Eph; try contradiction. cbn [outcome_ok] in H.
+  destruct (history_is_copy_actions fc src dst e0 blk h (b_ev s) bs Eph Hsame Hcl) as [Hacts Hok].
+  destruct (copy_actions fc src dst (with_writes e0 (map blk (rev bs)))) as [l ok] eqn:Ec. cbn [fst snd] in *. subst ok.
+  destruct (copy_actions_order fc src dst _ l Ec) as (A & F & Hl & HA & HF & _).
+  exists bs, A, F. rewrite Hacts, Hl. auto.
+Qed.
+
 Print Assumptions C10_meta_preserved.
 Print Assumptions C10_ownership_keeps_setid.
 Print Assumptions C10_flags_suppress_actions.
 Print Assumptions C10_create_mode.
 Print Assumptions C10_src_finalise_order.
+Print Assumptions C10_metadata_after_data_in_every_schedule.
